@@ -52,11 +52,11 @@ Definition stops (rest : list ascii) : Prop :=
   match rest with [] => True | c :: _ => is_digit c = false /\ Ascii.eqb c "_" = false end.
 
 Lemma span_digits_us_app : forall dz rest, forallb is_digit dz = true -> stops rest ->
-  span_digits_us (dz ++ rest) = (dz, rest).
+  span_digits (dz ++ rest) = (dz, rest).
 Proof.
   induction dz as [|c dz IH]; intros rest Hd Hs; cbn [app].
-  - destruct rest as [|c r]; [reflexivity|]. destruct Hs as [H1 H2]. cbn [span_digits_us]. rewrite H1, H2. reflexivity.
-  - cbn [forallb] in Hd. apply andb_true_iff in Hd. destruct Hd as [H1 H2]. cbn [span_digits_us]. rewrite H1. cbn [orb].
+  - destruct rest as [|c r]; [reflexivity|]. destruct Hs as [H1 H2]. cbn [span_digits]. rewrite H1. reflexivity.
+  - cbn [forallb] in Hd. apply andb_true_iff in Hd. destruct Hd as [H1 H2]. cbn [span_digits]. rewrite H1.
     rewrite (IH rest H2 Hs). reflexivity.
 Qed.
 
